@@ -113,6 +113,15 @@ func checkValidity(
 	if err := verifyHeader(ctx, cdc, store, clientState, header); err != nil {
 		return err
 	}
+	// Every accepted header becomes the head and the client's status is computed from the head's consensus state:
+	// a header older than the trusting period (a late block of an abandoned branch) would leave the client expired
+	// at the very block time of the update, and an expired client refuses every later update.
+	if header.Time+clientState.TrustingPeriod < uint64(ctx.BlockTime().Unix()) {
+		return sdkerrors.Wrapf(
+			clienttypes.ErrInvalidHeader,
+			"header timestamp %d is older than the trusting period %d", header.Time, clientState.TrustingPeriod,
+		)
+	}
 
 	if clientState.ChainId != 4 {
 		// Ensure that the header's extra-data section is of a reasonable size
